@@ -139,7 +139,11 @@ func NewEnvManager(tm *task.Manager, incomingEventCh chan event.Event) *Manager 
 
 						instance.mu.Lock()
 						close(thisEnvCh)
-						delete(instance.pendingTeardownsCh, typedEvent.GetEnvironmentId())
+						// The teardown we have just woken up may already have registered the channel
+						// for its next release round: only remove the registration if it is still ours.
+						if instance.pendingTeardownsCh[typedEvent.GetEnvironmentId()] == thisEnvCh {
+							delete(instance.pendingTeardownsCh, typedEvent.GetEnvironmentId())
+						}
 						instance.mu.Unlock()
 
 					} else {
